@@ -6,6 +6,7 @@ record-number allocation), theorems Rec/Rec13Sound.v stated in Properties/C05rec
 C09rec13.v, correspondence harness harness/overlay/root/zz_verif_rec13_*_test.go (+ the in-package
 file under harness/overlay/pkgs/internal/ciphersuite).
 
+    (call them AFTER chk.prove(): they add their theorems to chk.cov["obligations"/"discharged"/"theorems"])
     run_c05(chk)   record authenticity (forged / altered / re-labelled / truncated records are inert)
     run_c06(chk)   anti-replay, per-epoch windows across KeyUpdate generations, reconstruction
     run_c09(chk)   (key, nonce) uniqueness on the send side
@@ -201,9 +202,9 @@ def pstate_term(st):
 def init_term(c):
     st = c["init"]
     ep, cur, old, wins, high = pstate_parts(st)
-    return "(mk_state %s %d %s %s %s %s %s %s %s %s)" % (
+    return "(mk_state %s %d %s %s %s %s %s %s %s %s %s)" % (
         cnat(c["w"]), ep, copt(cur), vlib.cNlist(old), wins, high, clist([chex(q) for q in st["queue"]]),
-        chex(st["cid"]), cbool(st["cidneg"]), cbool(st.get("rrc", False)))
+        chex(st["cid"]), cbool(st["cidneg"]), cbool(st.get("rrc", False)), cbool(st.get("estab", False)))
 
 
 def op_term(o):
@@ -216,6 +217,8 @@ def op_term(o):
         return "(SetRemoteEpoch %d)" % o["e"]
     if k == "cid":
         return "(SetExt %s %s %s)" % (chex(o.get("hex", "")), cbool(o.get("neg", False)), cbool(o.get("rrc", False)))
+    if k == "estab":
+        return "SetEstablished"
     return "Drain"
 
 
@@ -317,18 +320,21 @@ def prev_state(c, i):
 
 
 def same_except_queue(a, b):
-    return all(a[k] == b[k] for k in ("epoch", "cur", "old", "wins", "high", "closed", "cid", "cidneg", "rrc")) and \
+    return all(a[k] == b[k] for k in ("epoch", "cur", "old", "wins", "high", "closed", "cid", "cidneg", "rrc", "estab")) and \
         b["queue"][:len(a["queue"])] == a["queue"] and len(b["queue"]) <= 100
 
 
 def monitor_c06(c):
-    """at-most-once delivery of every written payload over the whole trace"""
+    """at-most-once delivery of every written payload over the whole trace; a record sealed under a
+    generation the receiver has installed but not yet authorised (remote epoch not moved) is not delivered"""
     seen = {}
     for i, s in enumerate(c["steps"]):
         for p in s["obs"]["delivered"]:
             if p in seen:
                 return i, "payload delivered twice (first at step %d)" % seen[p]
             seen[p] = i
+        if s["tag"] == "craft:early-next-gen" and s["obs"]["delivered"]:
+            return i, "record of a generation not yet authorised (epoch above the remote epoch) delivered"
     return None
 
 
